@@ -29,6 +29,7 @@ type Obligation struct {
 	Text      string
 	Script    *Script
 	Slow      bool // discharged only in the thorough tier
+	Props     []string // if non-empty: the clause counts only for these properties
 }
 
 type localPath struct {
@@ -158,6 +159,13 @@ func (g *Gen) addObl(kind, label string, st *State, goal string, pos token.Pos) 
 	if strings.Contains(label, "!slow") {
 		o.Slow = true
 		o.Name = strings.ReplaceAll(o.Name, "!slow", "")
+	}
+	// clause-level property tags:  @name{C17,C10}
+	if i := strings.Index(o.Name, "{"); i >= 0 {
+		if j := strings.Index(o.Name[i:], "}"); j > 0 {
+			o.Props = strings.Split(o.Name[i+1:i+j], ",")
+			o.Name = o.Name[:i] + o.Name[i+j+1:]
+		}
 	}
 	g.obls = append(g.obls, o)
 	return o
